@@ -106,6 +106,17 @@ def run_model(spec, ses):
             res, model = ses.oblige(label, S + Sdefs, [q], kind=('projection-nra' if nonlin else 'projection-lra'),
                                     core=not nonlin, twin=(bi == 0), timeout_ms=(8000 if ses.tier == 'quick' and nonlin else 40000),
                                     sample=dict(model=name, rows=len(blk['rows']), locals=len(loc), nonlinear=nonlin))
+            if res == 'unknown' and loc:
+                # second attempt: exact elimination of the locals defined by equality rows (equivalent block, fewer
+                # universally quantified columns)
+                ses.retract(label, ('projection-nra' if nonlin else 'projection-lra'), not nonlin)
+                vs2, rem = cp.eliminated(blk, vs)
+                bc2 = cp.block_cons(blk, vs2)
+                q2 = z3.ForAll([vs[j] for j in rem], z3.Not(z3.And(bc2))) if rem else z3.Not(z3.And(bc2))
+                res, model = ses.oblige(label + '/eliminated', S + Sdefs, [q2],
+                                        kind=('projection-nra' if nonlin else 'projection-lra'), core=not nonlin, twin=False,
+                                        timeout_ms=(8000 if ses.tier == 'quick' and nonlin else 40000),
+                                        sample=dict(model=name, rows=len(blk['rows']), locals=len(rem), nonlinear=nonlin))
             if res == 'unsat' and loc:
                 ses.stats.nontrivial.add(name)
             if res == 'sat':
